@@ -6,4 +6,7 @@ THEOREMS = [P + n for n in (
     "join_split", "replaceAll_self", "replaceAll_via_find", "find_least", "take_drop", "partition_concat", "trim_edges",
     "reverse_involutive", "prefix_checkset", "insert_remove",
     "format_laws", "range_spec", "range_ceilDiv_spec", "kmp_eq_naive", "kmp_table_spec", "sort_perm_sorted", "sort_perm_any_comparator", "partition_scan_left", "partition_step",
+    # mirrors of the C code (session 3)
+    "mirror_trim_edges", "mirror_trim", "mirror_reverse_case_bytes", "mirror_prefix_suffix", "mirror_string_slice",
+    "mirror_repeat", "mirror_checkset", "mirror_find", "mirror_split", "mirror_join",
 )]
